@@ -60,10 +60,27 @@ C4First(a, b) == IF a # "" THEN a ELSE b
 (***************************************************************************)
 (* Alphabet.                                                               *)
 (***************************************************************************)
-C4Chars == AlphaSet \cup {"\t", "\n", "\r", "é", "€", "日", "本", "ü", "λ"}
+\* Representatives of every UTF-8 lead-byte class, printable and not (in the
+\* sense of Go's unicode.IsPrint, which decides how text/template.JSEscape
+\* writes a character into the generated JavaScript).  None is white space or
+\* a line terminator (those belong to C15 / C14).  The literals below contain
+\* the characters themselves; by code point:
+\*   C4Bmp    U+00AD (C2, Cf)  U+0800 (E0, letter)  U+08E2 (E0, Cf)  U+200B (E2, Cf)
+\*            U+D000 (ED, letter)  U+D7FF (ED, unassigned)  U+FB01 (EF, letter)
+\*            U+FEFF (EF, Cf)  U+FFFD (EF, symbol)
+\*   C4Astral (two UTF-16 units each in a TLC string)
+\*            U+1F600 (F0, symbol)  U+1D173 (F0, Cf)  U+50000 (F1, unassigned)
+\*            U+E0001 (F3, Cf)  U+E0100 (F3, mark)  U+F0001 (F3, private use)
+\*            U+100000 (F4, private use)  U+10FFFD (F4, private use)
+C4Bmp == {"­", "ࠀ", "࣢", "​", "퀀", "퟿", "ﬁ", "﻿", "�"}
+C4Astral == {"😀", "𝅳", "񐀀", "󠀁", "󠄀", "󰀁", "􀀀", "􏿽"}
+C4Chars == AlphaSet \cup {"\t", "\n", "\r", "é", "€", "日", "本", "ü", "λ"} \cup C4Bmp
 
 RECURSIVE C4TextOKFrom(_, _)
-C4TextOKFrom(s, i) == i > Len(s) \/ (SubSeq(s, i, i) \in C4Chars /\ C4TextOKFrom(s, i + 1))
+C4TextOKFrom(s, i) ==
+  \/ i > Len(s)
+  \/ SubSeq(s, i, i) \in C4Chars /\ C4TextOKFrom(s, i + 1)
+  \/ i < Len(s) /\ SubSeq(s, i, i + 1) \in C4Astral /\ C4TextOKFrom(s, i + 2)
 C4TextOK(s) == C4TextOKFrom(s, 1)
 
 \* names every JavaScript object inherits: a map key of that name is found
@@ -363,10 +380,16 @@ StaticWhy(p) ==
 (* The harness describes the printed value by its class                     *)
 (*   [finite, negzero, use: "print" | "concat" | other]                     *)
 (* and the specification decides from the class alone whether the two back  *)
-(* ends must agree: finite, not negative zero (JS prints 0, Go -0), printed *)
-(* or concatenated to a string (inside lists/maps it is outside anyway).    *)
+(* ends must agree: finite (the text of NaN and the infinities is neither   *)
+(* defined by the language nor pinned by the repository's tests; negative   *)
+(* zero IS inside: it prints as 0 in JavaScript and in the unchanged Go     *)
+(* code, compares equal to 0 and is falsy), and used in one of the ways in  *)
+(* which both back ends look only at the number: printed, concatenated to a *)
+(* string, compared, tested for truthiness, used as a map key, or passed to *)
+(* round/floor/ceiling (an integer comes back).  A float as a LIST index is *)
+(* outside (Go rejects it, JS converts it).                                 *)
 (***************************************************************************)
-FloatClassInSubset(cls) == cls.finite /\ ~cls.negzero /\ cls.use \in {"print", "concat"}
+FloatClassInSubset(cls) == cls.finite /\ cls.use \in {"print", "concat", "compare", "truthy", "mapkey", "fn-int"}
 
 (***************************************************************************)
 (* Plural rules of the catalogues the harness installs (the same function  *)
